@@ -382,7 +382,7 @@ class C02(vlib.Driver):
                 st = after[op[1]]["struct"]["opts"]
                 one = "Learn {}%nat [{}]".format(op[1], "; ".join(f"({tab.name(o)}, {d['nstate']}%nat)" for o, d in st.items()))
                 ops = ([f"Act {op[1]}%nat"] if op[3] else []) + [one] * max(1, rec.get("reps", 1))
-                learn = "(Some ({}%nat, [{}]))".format(op[1], "; ".join(f"{p}%nat" for p in rec.get("changed_pos", [])))
+                learn = "(Some ({}%nat, {}))".format(op[1], _pack(rec.get("changed_pos", [])))
             elif k == "scores":
                 ops = [f"Score {i}%nat" for i in range(len(op[1]))]
             elif k == "select":
